@@ -11,6 +11,7 @@
   and restarts), with the history layer `Nq.BounceDaemon` and the bridge to `inject`/`bounceOf`.
 -/
 import Nq.Lemmas.Bounce
+import Nq.Lemmas.BounceRewrite
 import Nq.Lemmas.BounceDaemon
 
 namespace Nq.Props.C14
@@ -21,13 +22,21 @@ open Nq Nq.Bounce Nq.BounceSpec Nq.Lemmas.Bounce
 /-- **One `addbounce` call, one paragraph** — for every recipient, every report (any bytes: empty
 lines, `<x>:` look-alikes, 8-bit) and every virtualdomains table, whatever follows in the file: the
 reader sees exactly one paragraph `core`, then continues between paragraphs.  `core` begins with the
-line naming the recipient and is everything that was written except the final empty line(s). -/
+line naming the recipient and is everything that was written except the final empty line(s).  The
+name is `stripvdom es recip`; it is the documented name `namedRecipient` whenever `faithful` holds
+(`C14_strip`: always once the source has the whole-recipient lookup, otherwise for every recipient
+without an exception entry of its own — `C14_strip_unrepaired`, `C14_strip_exception_finding` say what
+happens there). -/
 theorem C14_paragraph (es : Tables) (recip report rest : Bytes) :
     ∃ core, paras .blank (addbounceText es recip report ++ rest) = core :: paras .blank rest
-      ∧ recipLine (namedRecipient es.locals es.vdoms recip) <+: core
+      ∧ recipLine (stripvdom es recip) <+: core
+      ∧ (faithful Gen.stripWholeFirst es.vdoms recip = true →
+          recipLine (namedRecipient es.locals es.vdoms recip) <+: core)
       ∧ (addbounceText es recip report = core ++ [LF] ∨ addbounceText es recip report = core ++ [LF, LF]) := by
-  refine ⟨paraCore es recip report, paras_addbounceText es recip report rest, ?_, paraCore_prefix es recip report⟩
-  rw [← stripvdom_eq_named]
+  refine ⟨paraCore es recip report, paras_addbounceText es recip report rest,
+    recipLine_prefix_paraCore es recip report, ?_, paraCore_prefix es recip report⟩
+  intro hf
+  rw [← stripvdom_eq_named es recip hf]
   exact recipLine_prefix_paraCore es recip report
 
 /-- …in particular the text written for one failure is one paragraph. -/
@@ -37,7 +46,9 @@ theorem C14_paragraph_one (es : Tables) (recip report : Bytes) :
   simp only [List.append_nil] at this
   simp [paragraphs, this, paras]
 
-/-- The recipient line is a single line: `<`, the address with every LF shown as `_`, `>:` LF. -/
+/-- (Corollary about the SPEC's own `recipLine`, not about the code: it says what the predicate used
+in `C14_paragraph` means.)  The recipient line is a single line: `<`, the address with every LF shown
+as `_`, `>:` LF. -/
 theorem C14_recipient_line (addr : Bytes) :
     ∃ r, recipLine addr = 60 :: (r ++ [62, 58, LF]) ∧ LF ∉ r ∧ r.length = addr.length := by
   refine ⟨addr.map (fun c => if c = LF then 95 else c), rfl, ?_, by simp⟩
@@ -50,28 +61,33 @@ theorem C14_recipient_line (addr : Bytes) :
 
 /-- **The bounce file has exactly one paragraph per failed recipient, in order, the i-th naming the
 i-th recipient** — for every list of failures, in any combination and order, with arbitrary report
-bytes.  Report text cannot add, remove or re-label a paragraph. -/
+bytes.  Report text cannot add, remove or re-label a paragraph.  (The count needs no hypothesis; the
+documented names need `faithful` for each recipient, see `C14_paragraph`.) -/
 theorem C14_paragraphs_file (es : Tables) (fails : List (Bytes × Bytes)) :
     (paragraphs (bounceFile es fails)).length = fails.length ∧
-    NamedInOrder es.locals es.vdoms fails (paragraphs (bounceFile es fails)) := by
+    paragraphs (bounceFile es fails) = fails.map (fun f => paraCore es f.1 f.2) ∧
+    (∀ f ∈ fails, recipLine (stripvdom es f.1) <+: paraCore es f.1 f.2) ∧
+    ((∀ f ∈ fails, faithful Gen.stripWholeFirst es.vdoms f.1 = true) →
+      NamedInOrder es.locals es.vdoms fails (paragraphs (bounceFile es fails))) := by
   rw [paragraphs_bounceFile]
-  exact ⟨by simp, namedInOrder_cores es fails⟩
+  exact ⟨by simp, rfl, fun f _ => recipLine_prefix_paraCore es f.1 f.2, fun h => namedInOrder_cores es fails h⟩
 
-/-- **The failure text follows the recipient line**: the same bytes, except that an LF which
-directly follows an LF (or opens the report) is shown as '/', one final LF is implied, and an empty
-line ends the paragraph. -/
+/-- **The failure text follows the recipient line** (of the name `stripvdom` computes; `C14_strip`
+identifies it with the documented name): the same bytes, except that an LF which directly follows an
+LF (or opens the report) is shown as '/', one final LF is implied, and an empty line ends the
+paragraph. -/
 theorem C14_report_shown (es : Tables) (recip report : Bytes) :
-    ∃ b tail, addbounceText es recip report = recipLine (namedRecipient es.locals es.vdoms recip) ++ b ++ tail
+    ∃ b tail, addbounceText es recip report = recipLine (stripvdom es recip) ++ b ++ tail
       ∧ sanit (chomp1 report) b = true ∧ (tail = [LF] ∨ tail = [LF, LF]) := by
   refine ⟨squashAll true (chomp1 report), if report = [] then [LF] else [LF, LF], ?_, sanit_squashAll _ _, ?_⟩
-  · rw [← stripvdom_eq_named]; exact addbounceText_shape es recip report
+  · exact addbounceText_shape es recip report
   · split <;> simp
 
 /-- A report without empty lines that does not begin with LF is shown verbatim. -/
 theorem C14_report_verbatim (es : Tables) (recip report : Bytes)
     (h1 : hasLFLF report = false) (h2 : report.head? ≠ some LF) (h3 : report ≠ []) :
-    addbounceText es recip report = recipLine (namedRecipient es.locals es.vdoms recip) ++ chomp1 report ++ [LF, LF] := by
-  rw [addbounceText_shape, stripvdom_eq_named]
+    addbounceText es recip report = recipLine (stripvdom es recip) ++ chomp1 report ++ [LF, LF] := by
+  rw [addbounceText_shape]
   have hc1 : hasLFLF (chomp1 report) = false := by
     unfold chomp1
     split
@@ -109,107 +125,269 @@ theorem C14_report_verbatim (es : Tables) (recip report : Bytes)
 text for every input. -/
 theorem C14_scan_literal (s : Bytes) : scanInPlace s = scanFrom false s := scanInPlace_eq s
 
-/-! ### The virtual-domain prefix: `stripvdomprepend` undoes exactly what `rewrite()` did -/
+/-! ### The virtual-domain prefix: `stripvdomprepend` against the documented rule and against `rewrite()`
 
-/-- **`stripvdomprepend` implements the documented precedence** (the order of `rewrite()`): a
-recipient at a domain listed in `locals` is named as it is; otherwise a virtual-*user* prefix is
+`stripvdomW w` is the model of `stripvdomprepend()`; `w` says whether the function has the statement of
+notes/C14-fix-3.diff (look the whole recipient up first, return it unchanged on an empty prepend).
+`stripvdom = stripvdomW Gen.stripWholeFirst`, the flag being read from qmail-send.c by the translator on
+every run.  The documented rule is `BounceSpec.namedRecipient`.  `faithful w es recip` =
+`w ∨ recip has no exception entry of its own`.
+
+Which of the following are real statements about the code and which are corollaries: `C14_strip`,
+`C14_strip_repaired`, `C14_strip_unrepaired`, `C14_strip_exception_finding` compare the transcribed
+loops with the independently written rule; `C14_undo_*` compare them with C10's model of `rewrite()`;
+`C14_strip_local/_exception/_user/_removed/_kept` merely unfold `namedRecipient` case by case (kept as
+readable corollaries); `C14_strip_user_rewrite`/`C14_strip_rewrite` are the round trip against the
+spec's own description of the rule (`entryFor`/`governing`), superseded by `C14_undo_prefixed`. -/
+
+/-- **`stripvdomprepend` implements the documented precedence** (the order of `rewrite()`) for every
+recipient for which `faithful` holds: a recipient at a domain listed in `locals` is named as it is;
+one that has an exception entry of its own is named as it is; otherwise a virtual-*user* prefix is
 removed (first cut `prepend-rest` such that `rest` has an entry with exactly that non-empty prepend);
-otherwise the entry that governs the recipient's domain (the domain itself, else the longest
-`.suffix` wildcard, else the catch-all; last entry wins, keys case-insensitive) decides, and its
-`prepend-` is removed exactly when the recipient starts with it. -/
-theorem C14_strip (t : Tables) (recip : Bytes) :
-    stripvdom t recip = namedRecipient t.locals t.vdoms recip := stripvdom_eq_named t recip
+otherwise the entry that governs the recipient's domain (the domain itself, else the longest `.suffix`
+wildcard, else the catch-all; last entry wins, keys case-insensitive) decides, and its `prepend-` is
+removed exactly when the recipient starts with it. -/
+theorem C14_strip (t : Tables) (recip : Bytes) (h : faithful Gen.stripWholeFirst t.vdoms recip = true) :
+    stripvdom t recip = namedRecipient t.locals t.vdoms recip := stripvdom_eq_named t recip h
 
-/-- **Rule "locals first"** (repaired defect F2): a recipient whose domain is listed in control/locals
-was never given a prefix by `rewrite()`; the bounce names it as it was addressed, whatever
-virtualdomains says. -/
-theorem C14_strip_local (t : Tables) (recip d : Bytes)
-    (hd : domainPart recip = some d) (hl : isLocal t.locals d = true) : stripvdom t recip = recip := by
-  rw [stripvdom_eq_named]
-  simp [namedRecipient, hd, hl]
+/-- …for every `w` (the theorem above is the instance `w = Gen.stripWholeFirst`) -/
+theorem C14_strip_w (w : Bool) (t : Tables) (recip : Bytes) (h : faithful w t.vdoms recip = true) :
+    stripvdomW w t recip = namedRecipient t.locals t.vdoms recip := stripvdomW_eq_named w t recip h
 
-/-- **Rule "virtual users"** (repaired defect F1): outside `locals`, if the recipient can be cut as
-`prepend-rest` where `rest` has a virtualdomains entry with exactly this non-empty prepend, the
-bounce names `rest` (the first such cut). -/
-theorem C14_strip_user (t : Tables) (recip d rest : Bytes)
+/-- **With the statement of notes/C14-fix-3.diff the function IS the documented rule**, for every
+table and every recipient, no hypothesis. -/
+theorem C14_strip_repaired (t : Tables) (recip : Bytes) :
+    stripvdomW true t recip = namedRecipient t.locals t.vdoms recip := stripvdomW_true t recip
+
+/-- **Complement of `C14_strip`: what the function without that statement does** — for a recipient at
+a non-local domain it applies rules 3 and 4 (`prefixUndone`: virtual-user cut, else governing domain
+entry) whether or not the recipient has an exception entry of its own. -/
+theorem C14_strip_unrepaired (t : Tables) (recip d : Bytes)
+    (hd : domainPart recip = some d) (hl : isLocal t.locals d = false) :
+    stripvdomW false t recip = prefixUndone t.vdoms recip d := by
+  rw [stripvdomW_false]
+  simp [hd, hl]
+
+/-- **Finding C14-strip-exception** (open until notes/C14-fix-3.diff is applied): virtualdomains
+`example.com:alice` and the exception entry `alice-x@example.com:`.  `rewrite()` sends
+`alice-x@example.com` to the remote channel unchanged, so the bounce must name `alice-x@example.com`;
+the function without the whole-recipient lookup names `x@example.com`, an address that was never a
+recipient; with it the name is right. -/
+theorem C14_strip_exception_finding :
+    let es : List (Bytes × Bytes) :=
+      [([101, 120, 97, 109, 112, 108, 101, 46, 99, 111, 109], [97, 108, 105, 99, 101]),
+       ([97, 108, 105, 99, 101, 45, 120, 64, 101, 120, 97, 109, 112, 108, 101, 46, 99, 111, 109], [])]
+    let recip : Bytes := [97, 108, 105, 99, 101, 45, 120, 64, 101, 120, 97, 109, 112, 108, 101, 46, 99, 111, 109]
+    namedRecipient [] es recip = recip ∧
+    stripvdomW false ⟨[], es⟩ recip = [120, 64, 101, 120, 97, 109, 112, 108, 101, 46, 99, 111, 109] ∧
+    stripvdomW true ⟨[], es⟩ recip = recip := by decide
+
+/-- (corollary, rule 1 — repaired defect F2) a recipient whose domain is listed in control/locals was
+never given a prefix by `rewrite()`; the bounce names it as it was addressed, whatever virtualdomains
+says. -/
+theorem C14_strip_local (w : Bool) (t : Tables) (recip d : Bytes)
+    (hd : domainPart recip = some d) (hl : isLocal t.locals d = true) : stripvdomW w t recip = recip := by
+  cases w with
+  | true => rw [stripvdomW_true]; simp [namedRecipient, hd, hl]
+  | false => rw [stripvdomW_false]; simp [hd, hl]
+
+/-- (corollary, rule 2 — the repair of finding C14-strip-exception) a recipient that has an exception
+entry of its own is named as it is. -/
+theorem C14_strip_exception (t : Tables) (recip : Bytes) (hx : hasException t.vdoms recip = true) :
+    stripvdomW true t recip = recip := by
+  rw [stripvdomW_true]
+  unfold namedRecipient
+  cases domainPart recip with
+  | none => rfl
+  | some d => simp [hx]
+
+/-- (corollary, rule 3 — repaired defect F1) outside `locals`, if the recipient can be cut as
+`prepend-rest` where `rest` has a virtualdomains entry with exactly this non-empty prepend, the bounce
+names `rest` (the first such cut).  This is also the complement of the unambiguity hypotheses of
+`C14_undo_remote`/`C14_undo_prefixed`: whenever a cut exists, its `rest` is what is named. -/
+theorem C14_strip_user (w : Bool) (t : Tables) (recip d rest : Bytes)
     (hd : domainPart recip = some d) (hl : isLocal t.locals d = false)
-    (hu : userSplit t.vdoms recip = some rest) : stripvdom t recip = rest := by
-  rw [stripvdom_eq_named]
-  simp [namedRecipient, hd, hl, hu]
+    (hx : w = true → hasException t.vdoms recip = false)
+    (hu : userSplit t.vdoms recip = some rest) : stripvdomW w t recip = rest := by
+  cases w with
+  | true => rw [stripvdomW_true]; simp [namedRecipient, prefixUndone, hd, hl, hx rfl, hu]
+  | false => rw [stripvdomW_false]; simp [prefixUndone, hd, hl, hu]
 
-/-- **What `rewrite()` prepends for a virtual user is what the bounce removes**: if `addr` (not at a
-local domain) has the entry `addr:p` with `p` non-empty and dash-free, the local recipient `p-addr`
-is named `addr`. -/
-theorem C14_strip_user_rewrite (t : Tables) (addr d p : Bytes)
+/-- (round trip against the spec's description of the rule; against `rewrite()` itself:
+`C14_undo_prefixed_user`) if `addr` (not at a local domain) has the entry `addr:p` with `p` non-empty
+and dash-free, the local recipient `p-addr` is named `addr`. -/
+theorem C14_strip_user_rewrite (w : Bool) (t : Tables) (addr d p : Bytes)
     (hd : domainPart addr = some d) (hl : isLocal t.locals d = false)
+    (hx : w = true → hasException t.vdoms (p ++ 45 :: addr) = false)
     (he : entryFor t.vdoms addr = some p) (hp : p ≠ []) (hdash : (45 : Byte) ∉ p) :
-    stripvdom t (p ++ 45 :: addr) = addr := by
+    stripvdomW w t (p ++ 45 :: addr) = addr := by
   have hd' : domainPart (p ++ 45 :: addr) = some d := by
     rw [← domainOf_eq_domainPart] at hd ⊢
     have := domainOf_append (p ++ [45]) addr d hd
     simpa using this
-  refine C14_strip_user t _ d addr hd' hl ?_
+  refine C14_strip_user w t _ d addr hd' hl hx ?_
   rw [← userStripGo_eq_userSplit, userStripGo_skip _ _ _ _ hdash]
   have hpe : p.isEmpty = false := by simpa using hp
   rw [entryFor_eq_cmLookup] at he
   simp [userStripGo, DASH, he, hpe]
 
-/-- outside `locals` and with no virtual-user cut, the prefix is removed when the governing entry's
-non-empty `prepend` and a dash start the recipient -/
-theorem C14_strip_removed (t : Tables) (recip d p : Bytes)
-    (hd : domainPart recip = some d) (hl : isLocal t.locals d = false) (hu : userSplit t.vdoms recip = none)
+/-- (corollary, rule 4) outside `locals`, without an exception entry the code looks at and with no
+virtual-user cut, the prefix is removed when the governing entry's non-empty `prepend` and a dash
+start the recipient -/
+theorem C14_strip_removed (w : Bool) (t : Tables) (recip d p : Bytes)
+    (hd : domainPart recip = some d) (hl : isLocal t.locals d = false)
+    (hx : w = true → hasException t.vdoms recip = false) (hu : userSplit t.vdoms recip = none)
     (hg : governing t.vdoms d = some p) (hp : p ≠ [])
-    (hpre : (p ++ [45]) <+: recip) : p ++ 45 :: stripvdom t recip = recip := by
-  rw [stripvdom_eq_named]
-  unfold namedRecipient
+    (hpre : (p ++ [45]) <+: recip) : p ++ 45 :: stripvdomW w t recip = recip := by
+  have hs : stripvdomW w t recip = prefixUndone t.vdoms recip d := by
+    cases w with
+    | true => rw [stripvdomW_true]; simp [namedRecipient, hd, hl, hx rfl]
+    | false => exact C14_strip_unrepaired t recip d hd hl
+  rw [hs]
+  unfold prefixUndone
   obtain ⟨r, ht⟩ := hpre
   have hpb : (p ++ [45]).isPrefixOf recip = true := by
     rw [List.isPrefixOf_iff_prefix]; exact ⟨r, ht⟩
   have hpe : p.isEmpty = false := by simpa using hp
-  simp only [hd, hl, hu, hg, hpe, hpb, Bool.not_false, Bool.and_self, if_true, Bool.false_eq_true, if_false]
+  simp only [hu, hg, hpe, hpb, Bool.not_false, Bool.and_self, if_true]
   rw [← ht]
   simp
 
-/-- …and in every other case (no virtual-user cut, no governing entry, an exception entry, or the
-recipient does not start with `prepend-`) the recipient is named as it is -/
-theorem C14_strip_kept (t : Tables) (recip : Bytes) (hu : userSplit t.vdoms recip = none)
+/-- (corollary, rule 4) …and in every other case (no virtual-user cut, and no governing entry, an
+exception entry for the domain, or the recipient does not start with `prepend-`) the recipient is
+named as it is -/
+theorem C14_strip_kept (w : Bool) (t : Tables) (recip : Bytes) (hu : userSplit t.vdoms recip = none)
     (h : ∀ d p, domainPart recip = some d → governing t.vdoms d = some p → p = [] ∨ ¬ (p ++ [45]) <+: recip) :
-    stripvdom t recip = recip := by
-  rw [stripvdom_eq_named]
-  unfold namedRecipient
-  cases hd : domainPart recip with
-  | none => rfl
-  | some d =>
-    simp only [hu]
-    split
-    · rfl
-    · cases hg : governing t.vdoms d with
-      | none => simp [hg]
-      | some p =>
-        rcases h d p hd hg with hp | hp
-        · simp [hg, hp]
-        · have : (p ++ [45]).isPrefixOf recip = false := by
-            cases hb : (p ++ [45]).isPrefixOf recip with
-            | false => rfl
-            | true => exact absurd (List.isPrefixOf_iff_prefix.mp hb) hp
-          simp only [hg, this, Bool.and_false, Bool.false_eq_true, if_false]
+    stripvdomW w t recip = recip := by
+  have key : (match domainPart recip with
+      | none => recip
+      | some d => if isLocal t.locals d then recip else prefixUndone t.vdoms recip d) = recip := by
+    cases hd : domainPart recip with
+    | none => rfl
+    | some d =>
+      simp only
+      split
+      · rfl
+      · unfold prefixUndone
+        simp only [hu]
+        cases hg : governing t.vdoms d with
+        | none => rfl
+        | some p =>
+          rcases h d p hd hg with hp | hp
+          · simp [hp]
+          · have : (p ++ [45]).isPrefixOf recip = false := by
+              cases hb : (p ++ [45]).isPrefixOf recip with
+              | false => rfl
+              | true => exact absurd (List.isPrefixOf_iff_prefix.mp hb) hp
+            simp only [this, Bool.and_false, Bool.false_eq_true, if_false]
+  cases w with
+  | false => rw [stripvdomW_false]; exact key
+  | true =>
+    rw [stripvdomW_true]
+    unfold namedRecipient
+    cases hd : domainPart recip with
+    | none => rfl
+    | some d =>
+      rw [hd] at key
+      simp only at key ⊢
+      by_cases hl : isLocal t.locals d = true
+      · simp [hl]
+      · by_cases hx : hasException t.vdoms recip = true
+        · simp [hx]
+        · simp only [hl, hx, if_false] at key ⊢
+          exact key
 
-/-- **What `rewrite()` prepends for a virtual domain is what the bounce removes**: if `p` is the
-(non-empty) prepend of the entry governing `addr`'s domain, the domain is not local and no
+/-- (round trip against the spec's description; against `rewrite()` itself: `C14_undo_prefixed`) if
+`p` is the (non-empty) prepend of the entry governing `addr`'s domain, the domain is not local and no
 virtual-user cut applies, the local recipient `p-addr` is named `addr` in the bounce. -/
-theorem C14_strip_rewrite (t : Tables) (addr d p : Bytes)
+theorem C14_strip_rewrite (w : Bool) (t : Tables) (addr d p : Bytes)
     (hd : domainPart addr = some d) (hl : isLocal t.locals d = false)
+    (hx : w = true → hasException t.vdoms (p ++ 45 :: addr) = false)
     (hu : userSplit t.vdoms (p ++ 45 :: addr) = none)
     (hg : governing t.vdoms d = some p) (hp : p ≠ []) :
-    stripvdom t (p ++ 45 :: addr) = addr := by
+    stripvdomW w t (p ++ 45 :: addr) = addr := by
   have hd' : domainPart (p ++ 45 :: addr) = some d := by
     rw [← domainOf_eq_domainPart] at hd ⊢
     have := domainOf_append (p ++ [45]) addr d hd
     simpa using this
-  have := C14_strip_removed t (p ++ 45 :: addr) d p hd' hl hu hg hp ⟨addr, by simp⟩
-  have h2 : p ++ 45 :: stripvdom t (p ++ 45 :: addr) = p ++ 45 :: addr := this
+  have := C14_strip_removed w t (p ++ 45 :: addr) d p hd' hl hx hu hg hp ⟨addr, by simp⟩
+  have h2 : p ++ 45 :: stripvdomW w t (p ++ 45 :: addr) = p ++ 45 :: addr := this
   have h3 := List.append_cancel_left h2
   simpa using h3
+
+/-! #### …against C10's model of `rewrite()` (`Nq.Rewrite.rewrite`, same control files: `tablesOf`)
+
+`rewrite c r = ⟨channel, tag, addr⟩`: `addr` = the recipient after default host and percent hack,
+`tag` = the prepend (empty = none); the channel file gets `addr` or `tag-addr`.  The bounce must name
+`addr`.  Inherent ambiguities of the string (the same string is what `rewrite()` writes for two
+different addresses) are excluded by explicit hypotheses; `C14_strip_user` says what is named then,
+`C14_undo_ambiguous` exhibits them. -/
+
+open Nq.Lemmas.BounceRewrite in
+/-- **locals**: a recipient `rewrite()` kept because its domain is in `locals` is named as it is — no
+hypothesis. -/
+theorem C14_undo_local (w : Bool) (c : Rewrite.Cfg) (r : Bytes)
+    (hc : (Rewrite.rewrite c r).chan = .loc) (ht : (Rewrite.rewrite c r).tag = []) :
+    stripvdomW w (tablesOf c) (Rewrite.rewrite c r).addr = (Rewrite.rewrite c r).addr :=
+  strip_local w c r hc ht
+
+open Nq.Lemmas.BounceRewrite in
+/-- **remote channel**: a recipient `rewrite()` sent to the remote channel (unchanged) is named as it
+is, provided (`faithful`) the code handles an exception entry of its own — finding C14-strip-exception
+is exactly the failure of this theorem for `w = false` — and, unless it has such an entry, no
+virtual-user cut applies to the string (otherwise the same string is also what `rewrite()` writes to
+the LOCAL channel for the address `rest` of the cut, and `rest` is named: `C14_strip_user`). -/
+theorem C14_undo_remote (w : Bool) (c : Rewrite.Cfg) (r : Bytes)
+    (hc : (Rewrite.rewrite c r).chan = .rem)
+    (hf : faithful w (tablesOf c).vdoms (Rewrite.rewrite c r).addr = true)
+    (hu : hasException (tablesOf c).vdoms (Rewrite.rewrite c r).addr = true ∨
+          userSplit (tablesOf c).vdoms (Rewrite.rewrite c r).addr = none) :
+    stripvdomW w (tablesOf c) (Rewrite.rewrite c r).addr = (Rewrite.rewrite c r).addr :=
+  strip_remote w c r hc hf hu
+
+open Nq.Lemmas.BounceRewrite in
+/-- **virtual domains and virtual users**: whatever `rewrite()` prepended — the prepend of the
+address's own entry, of its domain's entry, of a wildcard or of the catch-all — is removed again:
+`stripvdomprepend(tag-addr) = addr`, provided the prefixed string has no exception entry of its own
+that the code looks at (it would then also be a remote recipient) and the only virtual-user reading of
+the prefixed string, if there is one, is `addr` (otherwise: `C14_strip_user`, `C14_undo_ambiguous`). -/
+theorem C14_undo_prefixed (w : Bool) (c : Rewrite.Cfg) (r : Bytes)
+    (ht : (Rewrite.rewrite c r).tag ≠ [])
+    (hx : w = true → hasException (tablesOf c).vdoms
+            ((Rewrite.rewrite c r).tag ++ 45 :: (Rewrite.rewrite c r).addr) = false)
+    (hu : ∀ rest, userSplit (tablesOf c).vdoms
+            ((Rewrite.rewrite c r).tag ++ 45 :: (Rewrite.rewrite c r).addr) = some rest →
+            rest = (Rewrite.rewrite c r).addr) :
+    stripvdomW w (tablesOf c) ((Rewrite.rewrite c r).tag ++ 45 :: (Rewrite.rewrite c r).addr)
+      = (Rewrite.rewrite c r).addr :=
+  strip_prefixed w c r ht hx hu
+
+open Nq.Lemmas.BounceRewrite in
+/-- …the unambiguity hypothesis holds in the usual virtual-user case: the prepend comes from the
+address's own entry and contains no dash. -/
+theorem C14_undo_prefixed_user (w : Bool) (c : Rewrite.Cfg) (r : Bytes)
+    (ht : (Rewrite.rewrite c r).tag ≠ [])
+    (he : Rewrite.mapLookup c.vdoms (Rewrite.rewrite c r).addr = some (Rewrite.rewrite c r).tag)
+    (hdash : (45 : Byte) ∉ (Rewrite.rewrite c r).tag)
+    (hx : w = true → hasException (tablesOf c).vdoms
+            ((Rewrite.rewrite c r).tag ++ 45 :: (Rewrite.rewrite c r).addr) = false) :
+    stripvdomW w (tablesOf c) ((Rewrite.rewrite c r).tag ++ 45 :: (Rewrite.rewrite c r).addr)
+      = (Rewrite.rewrite c r).addr :=
+  strip_prefixed w c r ht hx
+    (unambiguous_of_dashfree _ _ _ (by rw [entryFor_tablesOf]; exact he) ht hdash)
+
+open Nq.Lemmas.BounceRewrite in
+/-- **The excluded ambiguity is real** (complement of `hu` in `C14_undo_prefixed`): virtualdomains
+`b:p` and `u@b:p-q`.  `rewrite()` maps BOTH `q-u@b` (domain entry) and `u@b` (virtual-user entry) to
+the local recipient `p-q-u@b`; no function of that string can name both, `stripvdomprepend` names
+`u@b`. -/
+theorem C14_undo_ambiguous :
+    let c : Rewrite.Cfg := { env := [], ph := [], locals := [], vdoms := [⟨[98], [112]⟩, ⟨[117, 64, 98], [112, 45, 113]⟩] }
+    Rewrite.rewrite c [113, 45, 117, 64, 98] = ⟨.loc, [112], [113, 45, 117, 64, 98]⟩ ∧
+    Rewrite.rewrite c [117, 64, 98] = ⟨.loc, [112, 45, 113], [117, 64, 98]⟩ ∧
+    (∀ w, stripvdomW w (tablesOf c) [112, 45, 113, 45, 117, 64, 98] = [117, 64, 98]) := by
+  refine ⟨by decide, by decide, ?_⟩
+  intro w; cases w <;> decide
 
 /-! ### Where bounces go: sender forms, VERP base address, double bounce, discard -/
 
@@ -250,18 +428,87 @@ theorem C14_envelope (cfg : Cfg) (date bf : Bytes) (m m' : Msg) (h : bounceOf cf
       rw [← h]
       exact ⟨by simpa using h2, rfl, rfl⟩
 
-/-- **The double-bounce address is `doublebounceto@doublebouncehost`** as getcontrols() assembles it:
-first line of each control file (trailing blanks removed); `doublebouncehost` falls back to `me`, then
-to the literal name; `doublebounceto` falls back to `postmaster`. -/
+/-- **The double-bounce address is `doublebounceto@doublebouncehost`, read from the control-file bytes
+as documented** (`specDoubleBounceTo`, written from qmail-send(8)/qmail-control(5) independently of the
+model and used, compiled, as the oracle's expectation): what `getcontrols()` assembles is exactly that,
+for every content of the three files. -/
 theorem C14_doublebounce_address (c : Controls) :
-    (getcontrols c).doublebounceto =
-      rldef c.doublebounceto c.me false (str "postmaster") ++ [AT]
-        ++ rldef c.doublebouncehost c.me true (str "doublebouncehost") ∧
-    (c.doublebounceto = none → c.doublebouncehost = none → c.me = none →
-      (getcontrols c).doublebounceto = str "postmaster" ++ [AT] ++ str "doublebouncehost") := by
-  refine ⟨rfl, ?_⟩
-  intro h1 h2 h3
-  simp [getcontrols, rldef, h1, h2, h3]
+    (getcontrols c).doublebounceto = specDoubleBounceTo c.doublebounceto c.doublebouncehost c.me := by
+  unfold getcontrols specDoubleBounceTo rldef
+  cases c.doublebounceto <;> cases c.doublebouncehost <;> cases c.me <;> simp [readline_eq_spec]
+
+/-- …spelled out case by case: a file that exists contributes its first line with trailing spaces
+and tabs removed; a missing `doublebounceto` is `postmaster` (control/me is not a fallback for it); a
+missing `doublebouncehost` is control/me's first line, and the literal `doublebouncehost` when there is
+no control/me either.  `bouncehost` and `bouncefrom` play no part. -/
+theorem C14_doublebounce_cases (c : Controls) :
+    ∃ to host, (getcontrols c).doublebounceto = to ++ [AT] ++ host ∧
+      (∀ f, c.doublebounceto = some f → to = specFirstLine f) ∧
+      (c.doublebounceto = none → to = str "postmaster") ∧
+      (∀ f, c.doublebouncehost = some f → host = specFirstLine f) ∧
+      (∀ m, c.doublebouncehost = none → c.me = some m → host = specFirstLine m) ∧
+      (c.doublebouncehost = none → c.me = none → host = str "doublebouncehost") := by
+  rw [C14_doublebounce_address]
+  refine ⟨_, _, rfl, ?_, ?_, ?_, ?_, ?_⟩
+  · intro f h; rw [h]
+  · intro h; rw [h]
+  · intro f h; rw [h]
+  · intro m h1 h2; rw [h1, h2]
+  · intro h1 h2; rw [h1, h2]
+
+/-- "first line, trailing blanks removed" on bytes: a file `core ws LF rest` (or `core ws` without a
+final LF), where `core` has no LF and does not end in a blank and `ws` consists of spaces and tabs,
+reads as `core`. -/
+theorem C14_control_first_line (core ws rest : Bytes) (hcore : LF ∉ core)
+    (hws : ∀ c ∈ ws, c = SP ∨ c = TAB) (hlast : ∀ c, core.getLast? = some c → c ≠ SP ∧ c ≠ TAB) :
+    specFirstLine (core ++ ws ++ LF :: rest) = core ∧ specFirstLine (core ++ ws) = core := by
+  have hwsl : LF ∉ ws := by
+    intro h; rcases hws _ h with e | e <;> simp [LF, SP, TAB] at e
+  have htw : ∀ tail : Bytes, (tail = [] ∨ tail.head? = some LF) →
+      (core ++ ws ++ tail).takeWhile (· != LF) = core ++ ws := by
+    intro tail ht
+    have hall : ∀ c ∈ core ++ ws, (c != LF) = true := by
+      intro c hc
+      rw [List.mem_append] at hc
+      have : c ≠ LF := by
+        rcases hc with hc | hc
+        · exact fun e => hcore (e ▸ hc)
+        · exact fun e => hwsl (e ▸ hc)
+      simpa using this
+    rw [List.takeWhile_append_of_pos hall]
+    rcases ht with rfl | ht
+    · simp
+    · cases tail with
+      | nil => simp
+      | cons x t =>
+        simp at ht; subst ht
+        simp
+  have hstrip : rstripBlank (core ++ ws) = core := by
+    unfold rstripBlank
+    rw [List.reverse_append]
+    have hallw : ∀ c ∈ ws.reverse, (c == SP || c == TAB) = true := by
+      intro c hc
+      rcases hws c (by simpa using hc) with e | e <;> simp [e]
+    rw [List.dropWhile_append_of_pos hallw]
+    cases hr : core.reverse with
+    | nil =>
+      have : core = [] := by simpa using hr
+      simp [this]
+    | cons x t =>
+      have hx : core.getLast? = some x := by
+        rw [List.getLast?_eq_head?_reverse, hr]; rfl
+      obtain ⟨h1, h2⟩ := hlast x hx
+      have : (x == SP || x == TAB) = false := by simp [h1, h2]
+      rw [List.dropWhile_cons, this]
+      simp only [Bool.false_eq_true, if_false]
+      rw [← hr, List.reverse_reverse]
+  constructor
+  · unfold specFirstLine
+    rw [htw (LF :: rest) (Or.inr rfl), hstrip]
+  · unfold specFirstLine
+    have := htw [] (Or.inl rfl)
+    simp only [List.append_nil] at this
+    rw [this, hstrip]
 
 /-- **A failing double bounce is discarded**: nothing is generated exactly for the sender `#@[]`
 (after VERP-suffix removal). -/
@@ -336,15 +583,17 @@ theorem C14_original_appended (cfg : Cfg) (date bf : Bytes) (m m' : Msg) (h : bo
 /-- **In the notice each failed recipient occupies exactly one paragraph.**  The text is
 `pre ++ bounce file ++ post` (`pre` = header and introduction, `post` = the "Below this line" marker,
 Return-Path and the original message); read as paragraphs it is the paragraphs of `pre`, then one
-paragraph per failed recipient — the i-th naming the i-th recipient — then the paragraphs of `post`:
+paragraph per failed recipient (exactly the paragraphs of the bounce file) — the i-th naming the i-th
+recipient (the documented name under `faithful`, see `C14_paragraph`) — then the paragraphs of `post`:
 neither report text nor recipient addresses nor the original message can change that count or
 re-label one of those paragraphs. -/
 theorem C14_notice_paragraphs (cfg : Cfg) (date : Bytes) (fails : List (Bytes × Bytes)) (m m' : Msg)
     (h : bounceOf cfg date (bounceFile cfg.tables fails) m = some m') :
     ∃ pre post ps, m'.body = pre ++ bounceFile cfg.tables fails ++ post
       ∧ paragraphs m'.body = paragraphs pre ++ ps ++ paragraphs post
+      ∧ ps = paragraphs (bounceFile cfg.tables fails)
       ∧ ps.length = fails.length
-      ∧ NamedInOrder cfg.locals cfg.vdoms fails ps
+      ∧ ((∀ f ∈ fails, faithful Gen.stripWholeFirst cfg.vdoms f.1 = true) → NamedInOrder cfg.locals cfg.vdoms fails ps)
       ∧ m.body <:+ post := by
   have key : ∀ (pre0 intro post : Bytes), (intro = introSingle ∨ intro = introDouble) →
       paragraphs ((pre0 ++ intro) ++ bounceFile cfg.tables fails ++ post)
@@ -369,7 +618,7 @@ theorem C14_notice_paragraphs (cfg : Cfg) (date : Bytes) (fails : List (Bytes ×
     simp only [hd, Option.some.injEq] at h
     rw [← h]
     refine ⟨preamble cfg date cfg.doublebounceto false, trailer false [] m.body,
-      paragraphs (bounceFile cfg.tables fails), rfl, ?_, hf.1, hf.2, hsuf _ _⟩
+      paragraphs (bounceFile cfg.tables fails), rfl, ?_, rfl, hf.1, hf.2.2.2, hsuf _ _⟩
     unfold preamble
     simp only [Bool.false_eq_true, if_false]
     exact key _ introDouble _ (Or.inr rfl)
@@ -377,7 +626,7 @@ theorem C14_notice_paragraphs (cfg : Cfg) (date : Bytes) (fails : List (Bytes ×
     simp only [hd, Option.some.injEq] at h
     rw [← h]
     refine ⟨preamble cfg date r true, trailer true r m.body,
-      paragraphs (bounceFile cfg.tables fails), rfl, ?_, hf.1, hf.2, hsuf _ _⟩
+      paragraphs (bounceFile cfg.tables fails), rfl, ?_, rfl, hf.1, hf.2.2.2, hsuf _ _⟩
     unfold preamble
     simp only [if_true]
     exact key _ introSingle _ (Or.inl rfl)
